@@ -55,6 +55,13 @@ def _case(draw, tier, stratum):
         labs.append(
             draw(lab_spec(names[i], kind=kind, max_rows=16 if big else 8, max_cols=(24 if big else 12) if kind == "plate" else 6, regime=regime, grid=bool(q), q=q or 0.01, pos=(10 + i, 1 + i), filled=True if (i == 0 and draw(st.booleans())) else None))
         )
+    # sometimes a plate and a trough with the same id grid (rows x columns) share the worklist
+    if n >= 2 and labs[0]["kind"] == "trough" and labs[1]["kind"] == "plate" and draw(st.integers(0, 2)) == 0:
+        labs[1] = draw(lab_spec(names[1], kind="plate", max_rows=labs[0]["vrows"], max_cols=labs[0]["cols"], regime="roomy", grid=bool(q), q=q or 0.01, pos=(11, 2), filled=True))
+        labs[1]["rows"], labs[1]["cols"] = labs[0]["vrows"], labs[0]["cols"]
+        v0 = labs[1]["init"][0][0]
+        labs[1]["init"] = [[v0] * labs[0]["cols"] for _ in range(labs[0]["vrows"])]
+        labs[1]["names"] = None
     vs = vs_ok(q)
     bigv = st.one_of(vs, st.fixed_dictionaries({"f": st.floats(0.3, 1.0).map(lambda x: round(x, 3))}))
     anyop = st.one_of(op_direct(vs, kinds=("aspirate", "dispense")), op_transfer(bigv), op_transfer(bigv), op_distribute(vs))
@@ -65,7 +72,7 @@ def _case(draw, tier, stratum):
         "device": device,
         "q": q,
         "M": draw(st.sampled_from(MS)),
-        "ops": draw(st.lists(ops, min_size=1, max_size=10)),
+        "ops": draw(st.lists(ops, min_size=1, max_size=10 if tier == "quick" else 20)),
     }
 
 
